@@ -254,6 +254,26 @@ Fixpoint runT (fuel : nat) (now : N) (fx : nat -> list N) (cnt : nat -> nat) (st
   end.
 End RetryT.
 
+(* ---- the policy as a CHOICE ORACLE (random, least_conn, and any policy whatever) ----
+   The state of the selector is the list of choices the policy is going to make.  Whatever the
+   oracle says, the selector is sound and complete: a choice that is not available at the moment
+   it is made is overridden by the earliest available host (the oracle entry is consumed), and no
+   entry is consumed when no host is available (Select returns nil).  Every run of the loop with a
+   sound and complete policy is the run of [osel] fed with the hosts that run chose
+   (C05_retry_run_is_oracle_run), so what is proved of [osel] for EVERY oracle is proved of every
+   such policy, and an observed run of random / least_conn is compared with the model by feeding
+   [osel] the observed choices: they agree iff every observed choice was available by the model's
+   books and nil was returned only when none was. *)
+Definition osel (st : list nat) (av : list bool) : option nat * list nat :=
+  if existsb (fun b => b) av then
+    match st with
+    | o :: r => if nth o av false then (Some o, r) else (first_select av, r)
+    | [] => (first_select av, [])
+    end
+  else (None, st).
+Definition ev_choices (tr : list tev) : list nat :=
+  flat_map (fun e => match e with EAttempt _ i _ _ _ _ | ERefused _ i => [i] | ENone _ => [] end) tr.
+
 (* bytes an attempt received, for a body of any type *)
 Definition rx_bytes {A} (body : list A) (rx : rxk) : option (list A) :=
   match rx with RxNotRead => None | RxFull => Some body | RxClosed | RxBad => Some [] end.
@@ -673,8 +693,11 @@ Definition retryT_eval (p : pol) (c : tcfg) (unhl : list bool) (scripts : list s
       let st0 := match p with PRoundRobin r => r | _ => 0 end in
       let fuel := (N.to_nat (t_td c / t_ti c) + 3)%nat in
       let fx0 := fun i => nth i fx0l [] in
-      let '(out, tr) := runT N (sel_of p) c unh scr env fuel 0 fx0 (fun _ => 0%nat) st0 true 0 in
-      let agree := negb det || (list_beq tev_eqb tr obs && tout_eqb out obs_out) in
+      let orc := match p with PRandom | PLeastConn => true | _ => false end in
+      (* random / least_conn: the observed choices are the oracle of the model's selector *)
+      let '(out, tr) := if orc then runT (list nat) osel c unh scr env fuel 0 fx0 (fun _ => 0%nat) (ev_choices obs) true 0
+                        else runT N (sel_of p) c unh scr env fuel 0 fx0 (fun _ => 0%nat) st0 true 0 in
+      let agree := negb (det || orc) || (list_beq tev_eqb tr obs && tout_eqb out obs_out) in
       let dmax := dmax_of n scr in
       let env_clear g := forallb (fun row => negb (nth g row false)) envl in
       let spec :=
